@@ -49,6 +49,14 @@ def smap_rule(chk: Check, ctx: Any, rule: str) -> None:
         _t, dm = P.decompile_exps(c2.attrs["routine_infos"], c2.attrs["routine_ops"], c2.attrs["named_coroutines"])
         maps.append(("decompiler-map", dm))
         maps.append(("empty", I.call_func(repo.find_method(smc, "create_empty"), [ClassVal(smc)], {})))
+        # an arbitrary well-typed map ("as a reader of SSB files with its own op numbering builds it"): offsets start at 0, a return address is 0,
+        # one entry has no return address, one return address names an op without an entry of its own
+        fc = repo.find_class
+        mk = lambda *a: I.new(fc("MacroSourceMapping"), *a)  # noqa: E731
+        hand = I.new(smc, {0: I.new(fc("SourceMapping"), 3, 4), 2: I.new(fc("SourceMapping"), 5, 0)}, [],
+                     {1: mk(None, "m", 7, 8, (None, 1, 2), 0, {"$a": 1}), 4: mk("lib/x.exps", "n", 9, 0, None, None, {}), 5: mk("lib/x.exps", "n", 10, 0, ("lib/x.exps", 2, 2), 7, {"$b": "s"})},
+                     [])
+        maps.append(("hand-made-from-offset-0", hand))
     except (PyExc, Unsupported, AnalysisError) as e:
         chk.unknown(rule, "smap:inputs", anchor, f"the sample maps could not be produced: {e}")
         return
